@@ -402,6 +402,17 @@ fn hierarchy__order_and_restriction() {
                 n += 1;
             }
         }
+        // renaming keeps the rank (and id, hint, status) of the attribute, whatever its position
+        for (rank, name) in order.iter().enumerate() {
+            let mut s2 = s.clone();
+            s2.rename_attribute(&QualifiedAttribute::new("H", name), "renamed".to_string()).unwrap();
+            let mut o2 = order.clone();
+            o2[rank] = "renamed".to_string();
+            let names2: Vec<String> = s2.dimensions["H"].get_attributes_name().cloned().collect();
+            vchk!(names2 == o2, "C01/C02/C03: renaming {name} in hierarchy {order:?} gives the order {names2:?}: a renamed attribute must keep its rank (it neither gains the access of higher attributes nor loses that of lower ones)");
+            vchk!(s2.dimensions["H"].get_attribute(&"renamed".to_string()) == s.dimensions["H"].get_attribute(name), "C03: a renamed attribute keeps id, hint and status");
+            n += 1;
+        }
         // duplicate names are refused whatever the insertion point, and the structure is left as it was
         for dup in order.iter() {
             for after in std::iter::once(None).chain(order.iter().map(Some)) {
